@@ -146,6 +146,11 @@ def run_property(prop, harnesses, tier, seed, jobs=None, opts=None, out=sys.stdo
                                   dict(opts, **getattr(mod, "OPTS", {}))))
             else:
                 tasks.append((hn, shape, dict(opts, **getattr(mod, "OPTS", {}))))
+    # sizing aid (never used by a registered command; the run is reported as inconclusive): keep a stable 1/N sample
+    sample_n = int(os.environ.get("SYMX_SAMPLE", "0") or 0)
+    if sample_n > 1:
+        import hashlib
+        tasks = [t for t in tasks if int(hashlib.md5(json.dumps(t[1], sort_keys=True, default=str).encode()).hexdigest()[:8], 16) % sample_n == 0]
     # big instances first
     tasks.sort(key=lambda t: -t[1].get("_cost", 0))
     results = []
@@ -186,6 +191,7 @@ def run_property(prop, harnesses, tier, seed, jobs=None, opts=None, out=sys.stdo
             samples.append({"shape": r["shape"], "module": r["module"], **r["samples"][0]})
         recorded.extend(r.get("recorded", []))
     if os.environ.get("SYMX_TIMES"):
+        print(f"  TIME cpu_total={sum(r_['wall_s'] for r_ in results):.0f}s tasks={len(results)} max={max((r_['wall_s'] for r_ in results), default=0):.0f}s", file=out)
         byshape = {}
         for r_ in results:
             sh_ = {k: v for k, v in r_["shape"].items() if not k.startswith("_")}
@@ -264,6 +270,10 @@ def run_property(prop, harnesses, tier, seed, jobs=None, opts=None, out=sys.stdo
             lines.append(f"KNOWN-FINDING: property={prop} {kf['what']}")
     if exit_code == EXIT_OK and (problems or missing):
         exit_code = EXIT_INCONCLUSIVE
+    if sample_n > 1:
+        problems.append({"status": "inconclusive", "error": f"SYMX_SAMPLE={sample_n}: sizing run over a sample, not a check", "module": "runner", "shape": None})
+        if exit_code == EXIT_OK:
+            exit_code = EXIT_INCONCLUSIVE
     wall = time.time() - t0
     funcs = []
     assumptions = []
